@@ -159,6 +159,52 @@ macro_rules! step_h {
     };
 }
 
+/// Several value-pushing opcodes applied one after the other to the same generator (quick tier: one query instead of
+/// one per opcode — Kani's per-harness overhead dominates these small steps).  After every step the whole relation is
+/// re-checked, so step k starts from the (checked) post-state of step k-1 on top of a symbolic slot.
+macro_rules! step_chain {
+    ($name:ident, $unw:expr, [$(($op:ident, $arg:expr)),*]) => {
+        #[kani::proof]
+        #[kani::unwind($unw)]
+        #[kani::stub(std::hash::RandomState::new, rs_conc)]
+        #[kani::stub(std::rc::Rc::drop_slow, rc_drop_slow_noop)]
+        #[kani::stub(std::collections::HashMap::len, hm_len_any)]
+        #[kani::stub(std::collections::HashMap::is_empty, hm_is_empty_any)]
+        #[kani::stub(<f64 as std::str::FromStr>::from_str, f64_from_str_any)]
+        #[kani::stub(Generator::put, c_put)]
+        #[kani::stub(Generator::get, c_get)]
+        fn $name() {
+            let (mut g, rs0) = build_step(1);
+            kani::assume(safe_mode(&g));
+            let mut rs = rs0;
+            let m = rs.m;
+            $( {
+                let op = OpcodeKind::$op;
+                let i = ref_index(op);
+                assert!(g.can_emit(op) || i == I_EXT1 || i == I_EXT2 || i == I_EXT4 || i == I_NEXT_BUFFER,
+                        concat!("value-pushing opcode is not enabled [", stringify!($op), "]"));
+                let depth0 = g.state.stack.inner.len();
+                let argv: Option<Vec<u8>> = $arg(m, 0);
+                g.process_stack_ops(op, argv.as_deref());
+                rs = step(i, &rs, 0);
+                compare_stack(&g, &rs);
+                assert!(g.state.stack.inner.len() == depth0 + 1, concat!("value-pushing opcode must push exactly one object [", stringify!($op), "]"));
+                std::mem::forget(argv);
+            } )*
+            assert!(unsafe { PUTS.puts } == 0, "memo index set differs from the reference machine (unexpected store)");
+            assert!(g.output.len() == 0, "process_stack_ops must not touch the output");
+            kani::cover!(true);
+            std::mem::forget(g);
+        }
+    };
+}
+step_chain!(step_chain_consts, 10, [(Mark, a_none), (EmptyTuple, a_none), (None, a_none), (EmptyList, a_none), (EmptyDict, a_none), (NewTrue, a_none)]);
+step_chain!(step_chain_consts2, 10, [(NewFalse, a_none), (EmptySet, a_none), (NextBuffer, a_none), (Ext1, a_bytes1), (Ext2, a_bytes2), (Ext4, a_bytes4)]);
+step_chain!(step_chain_ints, 10, [(Int, a_digit_nl), (Long, a_digit_l_nl), (BinInt, a_bytes4), (BinInt1, a_bytes1), (BinInt2, a_bytes2), (Long1, a_long1), (Long4, a_long4)]);
+step_chain!(step_chain_floats_bytes, 10, [(Float, a_float_nl), (BinFloat, a_bytes8), (BinBytes, a_payload), (ShortBinBytes, a_payload), (BinBytes8, a_payload), (ByteArray8, a_payload)]);
+step_chain!(step_chain_bytes2, 10, [(BinString, a_payload), (ShortBinString, a_payload)]);
+// (the text opcodes STRING, UNICODE, *BINUNICODE*, PERSID go through from_utf8_lossy and stay one query each: chained they time out)
+
 // argument builders: fn(m, memoarg) -> Option<Vec<u8>>
 fn a_none(_m: usize, _a: usize) -> Option<Vec<u8>> {
     None
